@@ -113,6 +113,9 @@ const STACK_BUDGET: usize = 4 * MEBI;
 // Epsilon used for approximate floating-point equality checks
 const FLOAT_EQ_EPS: f64 = 1e-12;
 
+/// Base variable expression, its name, and the index expressions of an `a[i][j]...` chain.
+type IndexTarget<'a> = (ExprRef<'a>, &'a str, Vec<(ExprRef<'a>, Span), &'a Arena>);
+
 /// The value types our runtime can work with at runtime.
 #[derive(Debug, PartialEq)]
 pub enum Value<'a> {
@@ -1320,7 +1323,9 @@ impl<'a> Runtime<'a> {
                 }
             }
             Expr::Index { .. } => {
-                let (base_expr, base_var, index_exprs) = self.flatten_index_target(object);
+                let (base_expr, base_var, index_exprs) = self
+                    .flatten_index_target(object)
+                    .ok_or_else(|| RuntimeError::new(RuntimeErrorKind::TypeMismatch, span))?;
 
                 let mut evaluated_indices = Vec::with_capacity_in(index_exprs.len(), self.frame);
                 for (index_expr, index_span) in &index_exprs {
@@ -1403,7 +1408,9 @@ impl<'a> Runtime<'a> {
                 }
             }
             Expr::Index { .. } => {
-                let (base_expr, base_var, index_exprs) = self.flatten_index_target(object);
+                let (base_expr, base_var, index_exprs) = self
+                    .flatten_index_target(object)
+                    .ok_or_else(|| RuntimeError::new(RuntimeErrorKind::TypeMismatch, span))?;
 
                 let mut evaluated_indices = Vec::with_capacity_in(index_exprs.len(), self.frame);
                 for (index_expr, index_span) in &index_exprs {
@@ -1652,7 +1659,9 @@ impl<'a> Runtime<'a> {
         value: Value<'a>,
         span: Span,
     ) -> Result<(), RuntimeError> {
-        let (base_expr, base_var, index_exprs) = self.flatten_index_target(target);
+        let (base_expr, base_var, index_exprs) = self
+            .flatten_index_target(target)
+            .ok_or_else(|| RuntimeError::new(RuntimeErrorKind::TypeMismatch, span))?;
 
         let mut evaluated_indices = Vec::with_capacity_in(index_exprs.len(), self.frame);
         for (index_expr, index_span) in &index_exprs {
@@ -1698,10 +1707,9 @@ impl<'a> Runtime<'a> {
         unreachable!("Index assignment should return inside loop");
     }
 
-    fn flatten_index_target(
-        &self,
-        mut target: ExprRef<'a>,
-    ) -> (ExprRef<'a>, &'a str, Vec<(ExprRef<'a>, Span), &'a Arena>) {
+    /// Splits `a[i][j]...` into its base variable and index expressions.
+    /// Returns `None` when the base of the chain is not a variable (e.g. `f()[0]`).
+    fn flatten_index_target(&self, mut target: ExprRef<'a>) -> Option<IndexTarget<'a>> {
         let mut indices = Vec::new_in(self.frame);
         loop {
             match target {
@@ -1711,9 +1719,9 @@ impl<'a> Runtime<'a> {
                 }
                 Expr::Var(name, ..) => {
                     indices.reverse();
-                    return (target, *name, indices);
+                    return Some((target, *name, indices));
                 }
-                _ => unreachable!("Semantic analysis guarantees valid index assignment target",),
+                _ => return None,
             }
         }
     }
